@@ -43,6 +43,35 @@ def hidden_state_inventory(ctx, rule, rs_cells):
                 ctx.fail(rule, key, "-", "interior-mutable cell %s is written on the &self search path but is neither a "
                          "reset-before-read scratch buffer, a validated memo cell nor a nested struct: hidden state" % name,
                          {"witness": "repeating a search can change its answer"}, kind="S")
+    # plain fields of the long-lived singleton structs (Store, the index, Lang, the matcher scratch structs) written on the
+    # search path through `&mut` access behind a RefCell: scratch (RS), the matrix, or reported as hidden state
+    singles = _singletons(ctx)
+    for (a, fname) in sorted(written):
+        if a not in singles:
+            continue
+        fdef = [f for f in facts.adts[a]["variants"][0]["fields"] if f["name"] == fname]
+        if not fdef:
+            continue
+        t = facts.ty(fdef[0]["ty"])
+        if t.get("k") == "adt" and t["did"] in ("std::cell::RefCell", "std::cell::Cell", "std::cell::UnsafeCell", "std::cell::OnceCell"):
+            continue        # handled above
+        name = "%s.%s" % (a.rsplit("::", 1)[-1], fname)
+        key = "field:%s" % name
+        if name in rs_cells:
+            ctx.ok(rule, key, "-", "%s is a scratch buffer checked by RS" % name, kind="S")
+        elif a.endswith("DistMatrix"):
+            ctx.ok(rule, key, "-", "%s belongs to the distance matrix (R10.d)" % name, kind="S")
+        else:
+            wb = None
+            for r in roots:
+                wb, how = eff.explain(r, (a, fname))
+                if wb:
+                    break
+            ctx.fail(rule, key, facts.bodies[wb].where() if wb in facts.bodies else "-",
+                     "%s is written on the search path (in %s) and is neither reset-before-read scratch nor the distance matrix: "
+                     "state that survives a search (e.g. a result cache) — later answers can depend on earlier queries, adds or "
+                     "limit changes" % (name, wb), {"witness": "search q; add a matching record (or change the limit); search q again"},
+                     kind="S")
     # thread-local keys touched on the search path
     for (b, bi, t, k, cid) in ctx.model.tls_sites:
         if b.id not in reach:
@@ -60,12 +89,44 @@ def hidden_state_inventory(ctx, rule, rs_cells):
     ctx.floor(rule, "interior_mutable_cells", n, 10)
 
 
+def _singletons(ctx):
+    """struct types of which one instance lives per thread / per store id: reachable from thread-local payloads through struct
+    fields, RefCell / Option wrappers and registry maps keyed by id — not through Vec element types"""
+    facts = ctx.facts
+    out = set()
+
+    def visit(tyname, depth=0):
+        if depth > 6:
+            return
+        t = facts.ty(tyname)
+        if t.get("k") != "adt":
+            return
+        did = t["did"]
+        if did in facts.adts:
+            if did in out or facts.adts[did]["kind"] != "struct":
+                return
+            out.add(did)
+            for f in facts.adts[did]["variants"][0]["fields"]:
+                visit(f["ty"], depth + 1)
+        elif did in ("std::cell::RefCell", "std::cell::Cell", "std::option::Option"):
+            for a in t.get("args", []):
+                visit(a, depth + 1)
+        elif did == "std::collections::HashMap" and t.get("args") and t["args"][0] == "usize":
+            visit(t["args"][1], depth + 1)
+    for key, payload in ctx.model.tls_keys.items():
+        if payload:
+            visit(payload)
+    return out
+
+
 def run(ctx):
     cells = RS.reset_before_read(ctx, "RS", floor=12)
     RS.matrix_rules(ctx, "R10.d")
     RS.memo_coherence(ctx, "R10.a")
     RS.consistency_group(ctx, "R10.b")
     hidden_state_inventory(ctx, "R10.e", cells)
+    from . import C20 as RC20
+    RC20.buffer_rules(ctx, "R20.c", None, None)
     return info("RS: every long-lived scratch collection obtained mutably on the search/tokenise path is reset before its "
                 "first observing use on every path (or every exit passes a full reset); R10.a: the memoised ranking is reused "
                 "only under a validation of scalar deps and is reset by every entry point that changes collection deps; "
